@@ -155,9 +155,9 @@ class _Impl:
 
 
 class _Host:
-    def __init__(self, h):
+    def __init__(self, h, into=None):
         self.fh = G.FlatHost(h)
-        self.model, self.graph, self.nodes = G.build_host(self.fh)
+        self.model, self.graph, self.nodes = G.build_host(self.fh, into=into)
         assert [n.name for n in self.graph] == [x[0] for x in self.fh.nodes]
 
 
@@ -503,6 +503,41 @@ def execute(item):
                 counts["positive_pairs"] = counts.get("positive_pairs", 0) + 1
                 nkeys.add(f"p{pn}:{pc}")
                 nkeys.add(f"h{hk}:{hc}")
+        if len(pat["outs"]) >= 2 or pat.get("commute"):
+            # history: the SAME Pattern/matcher objects on the SAME ir.Graph object that is edited in place between the
+            # calls (what a rewrite pass does): host h_i is matched at every root, the graph is rebuilt in place into
+            # h_j (consecutive hosts of the item, both orders when the node counts agree), and every root is judged again
+            for i in range(len(hosts) - 1):
+                for (c1, h1), (c2, h2) in ((hosts[i], hosts[i + 1]), (hosts[i + 1], hosts[i])):
+                    if len(h1.fh.nodes) != len(h2.fh.nodes):
+                        continue
+                    ha = _Host(_host_from(hk, c1))
+                    ha.nodes_by_idx = list(ha.graph)
+                    for root in range(len(ha.fh.nodes)):
+                        _run(impl, ha, root, False)
+                    hb = _Host(_host_from(hk, c2), into=(ha.model, ha.graph))
+                    hb.nodes_by_idx = list(hb.graph)
+                    cache2 = {}
+                    for root in range(len(hb.fh.nodes)):
+                        for remove in (False, True):
+                            outcome, kind, detail = judge(pat, impl, hb, root, remove, cache2)
+                            counts["extra_evaluations"] += nrules
+                            counts["inplace_edit_judgements"] = counts.get("inplace_edit_judgements", 0) + 1
+                            if outcome.startswith("match"):
+                                counts["inplace_edit_matches"] = counts.get("inplace_edit_matches", 0) + 1
+                            if kind is None:
+                                continue
+                            # the same (pattern, host, root) judged on a freshly built graph: a failure only after the
+                            # in-place edit is a history defect
+                            o2, k2, _ = judge(pat, impl, h2, root, remove, {})
+                            if k2 == kind:
+                                continue
+                            key = f"C06|history|{kind}|graph-edited-in-place-between-matches"
+                            v = viols.setdefault(key, {"key": key, "n": 0, "detail": dict(
+                                detail or {}, pattern=G.show_pattern(pat), host_before=h1.fh.show(), host=h2.fh.show(),
+                                root=h2.fh.nodes[root][0], check_nodes_are_removable=remove, on_fresh_graph=o2,
+                                replay={"pn": pn, "hk": hk, "kind": "rep", "ps": [pc], "hs": [c1, c2]})})
+                            v["n"] += 1
         if show is None:
             show = G.show_pattern(pat) + "  VS  " + hosts[0][1].fh.show()
     vl = []
